@@ -9,6 +9,55 @@ def run_C01(rep, g):
     return F
 
 
+def run_C03(rep, g):
+    rules.check_conversions(rep, g)
+
+
+def run_C04(rep, g):
+    rules.check_deserialize(rep, g)
+
+
+def run_C06(rep, g):
+    rules.check_from_str(rep, g)
+
+
+def run_C10(rep, g):
+    rules.check_serialize(rep, g)
+    rules.check_deserialize(rep, g)
+
+
+def run_C07(rep, g):
+    # order + first-violated: R-ORDER/R-VAL inside check_ctor; variants: R-VARIANT
+    rules.check_ctor(rep, g)
+    rules.check_error_enum(rep, g)
+    rules.check_custom_error_passthrough(rep, g)
+
+
+def run_C13(rep, g):
+    rules.check_views(rep, g)
+    rules.check_derived_cmp(rep, g)
+    rules.check_into_inner(rep, g)
+
+
+def run_C12(rep, g):
+    if g.d['family'] != 'float':
+        return
+    rules.check_float_total_order(rep, g)
+    if {'Eq', 'Ord'} & set(g.d['derives']):
+        rules.check_derived_cmp(rep, g)
+        rules.check_ctor(rep, g)
+        rules.check_conversions(rep, g)
+        rules.check_from_str(rep, g)
+        rules.check_deserialize(rep, g)
+
+
 E_PROPS = {
     'C01': run_C01,
+    'C03': run_C03,
+    'C04': run_C04,
+    'C06': run_C06,
+    'C10': run_C10,
+    'C07': run_C07,
+    'C12': run_C12,
+    'C13': run_C13,
 }
